@@ -235,13 +235,16 @@ def step(su, op, cfg):
             r = ('abandoned', None if first is None else canon(first, doc))
         else:
             ctx = XPathContext(root=doc, namespaces=su.ns, **kw)
+            ctx_vars_before = snap_vars(ctx.variables)
             r = canon(list(su.token.select_results(ctx)), doc)
+            if snap_vars(ctx.variables) != ctx_vars_before:
+                extra = 'context-variables:' + ','.join(sorted(set(ctx.variables) ^ set(dict(ctx_vars_before)))) 
     except ElementPathError as e:
         r = ('error', (e.code or '').split(':')[-1])
     except Exception as e:  # noqa
         r = ('escape', type(e).__name__ + ':' + str(e)[:60])
     after = (snap_doc(su.docs[0]), snap_doc(su.docs[1]), snap_vars(su.vars[0]), snap_vars(su.vars[1]), snap_vars(su.vars[2]), tuple(sorted(su.ns.items())))
-    effects = []
+    effects = [extra] if extra else []
     for name, b, a in zip(('document-0', 'document-1', 'variables-0', 'variables-1', 'variables-2', 'namespaces'), before, after):
         if a != b:
             detail = ''
